@@ -299,3 +299,133 @@ Theorem C03_wire_rtsp_session_releases : forall e s q,
                    (C12RtspSession.registry ext (C12RtspSession.s_held (C12RtspSession.closed_of s)) w) = true).
 Proof. exact C12RtspInv.teardown_or_disconnect_releases. Qed.
 Print Assumptions C03_wire_rtsp_session_releases.
+
+(* ---- 10. conversion goroutines ------------------------------------------------------------------
+   "... and no delivery or conversion goroutine of that stream remains": the three conversion
+   goroutines of a stream — rtp.Demuxer.process, flv.Muxer.process, mpegts.Muxer.process — are one
+   program over a cnotch/queue.SyncQueue: [for !closed { x := Pop(); if x == nil {continue}; work x }],
+   [Close: closed = true; Push(nil)], producers [Push(x)].  Model/C03Worker.v is its LTS (worker,
+   closer, producer; the wake-up of a waiting worker is a step of its own); [wrun true] is the code
+   as repaired (commit 951ebeb: Push(nil) instead of a bare Signal), [wrun false] the code before.
+   The statements hold for every schedule and every list of items.  Tied to /repo by the stream
+   "converter-goroutines" of checks/c03.py: schedules replayed through the points worker.pop /
+   worker.got on real rtp.Demuxer, flv.Muxer, mpegts.Muxer values with a recording sink. *)
+From V Require C03Worker C03WorkerProofs RunC03Worker.
+
+(* (a) after Close has returned the worker is never waiting inside Pop *)
+Theorem C03_worker_no_lost_wakeup : forall items sched,
+  let s := C03Worker.wrun true sched (C03Worker.winit items) in
+  C03Worker.w_kpc s = C03Worker.WKDone -> C03Worker.w_pc s <> C03Worker.WWait.
+Proof. exact C03WorkerProofs.worker_no_lost_wakeup. Qed.
+Print Assumptions C03_worker_no_lost_wakeup.
+
+(* (b) in every state where Close has returned and the worker cannot move, its goroutine has ended *)
+Theorem C03_worker_terminates : forall items sched,
+  let s := C03Worker.wrun true sched (C03Worker.winit items) in
+  C03Worker.w_kpc s = C03Worker.WKDone -> C03Worker.worker_can_move s = false ->
+  C03Worker.w_pc s = C03Worker.WDone.
+Proof. exact C03WorkerProofs.worker_terminates. Qed.
+Print Assumptions C03_worker_terminates.
+
+(* (b), promptly: once Close has returned, two steps of the worker itself end it, whatever the
+   producer does in between and however many items are queued *)
+Theorem C03_worker_ends_within_two_steps : forall items sched sched',
+  let s := C03Worker.wrun true sched (C03Worker.winit items) in
+  C03Worker.w_kpc s = C03Worker.WKDone -> 2 <= C03Worker.count_tw sched' ->
+  C03Worker.w_pc (C03Worker.wrun true sched' s) = C03Worker.WDone.
+Proof. exact C03WorkerProofs.worker_ends_within_two_steps. Qed.
+Print Assumptions C03_worker_ends_within_two_steps.
+
+(* the worker meets a nil element only after Close has returned *)
+Theorem C03_worker_nil_only_after_close : forall items sched,
+  let s := C03Worker.wrun true sched (C03Worker.winit items) in
+  (C03Worker.w_pc s = C03Worker.WGot None \/ In None (C03Worker.w_q s)) ->
+  C03Worker.w_kpc s = C03Worker.WKDone.
+Proof. exact C03WorkerProofs.worker_nil_only_after_close. Qed.
+Print Assumptions C03_worker_nil_only_after_close.
+
+(* (c) for both variants of Close: what was pushed is a prefix of the item list; what was processed
+   is a prefix of what was pushed (nothing invented, duplicated or reordered); until the goroutine
+   ends nothing is lost — pushed = processed ++ the item in hand ++ the items in the queue; a waiting
+   worker has processed everything pushed; the goroutine ends only after the flag was set.
+   NOT promised (and false, [C03_worker_close_may_drop]): that an item pushed before Close began is
+   processed — the worker leaves at its next loop test once the flag is set and the deferred Reset
+   drops the rest of the queue, the items behind the nil included. *)
+Theorem C03_worker_processes_in_order : forall push items sched,
+  let s := C03Worker.wrun push sched (C03Worker.winit items) in
+  C03Worker.w_pushed s ++ C03Worker.w_todo s = items /\
+  (exists rest, C03Worker.w_pushed s = C03Worker.w_out s ++ rest) /\
+  (C03Worker.w_pc s <> C03Worker.WDone ->
+     C03Worker.w_pushed s =
+       C03Worker.w_out s ++ C03Worker.winflight (C03Worker.w_pc s) ++ C03Worker.wsomes (C03Worker.w_q s)) /\
+  (C03Worker.w_pc s = C03Worker.WWait -> C03Worker.w_out s = C03Worker.w_pushed s) /\
+  (C03Worker.w_pc s = C03Worker.WDone -> C03Worker.w_closed s = true).
+Proof. exact C03WorkerProofs.worker_processes_in_order. Qed.
+Print Assumptions C03_worker_processes_in_order.
+
+Theorem C03_worker_idle_has_processed_all : forall push items sched,
+  let s := C03Worker.wrun push sched (C03Worker.winit items) in
+  C03Worker.worker_can_move s = false -> C03Worker.w_closed s = false ->
+  C03Worker.w_q s = [] /\ C03Worker.w_out s = C03Worker.w_pushed s.
+Proof. exact C03WorkerProofs.worker_idle_has_processed_all. Qed.
+Print Assumptions C03_worker_idle_has_processed_all.
+
+Theorem C03_worker_close_may_drop :
+  exists items sched,
+    let s := C03Worker.wrun true sched (C03Worker.winit items) in
+    C03Worker.w_pc s = C03Worker.WDone /\ C03Worker.w_kpc s = C03Worker.WKDone /\
+    C03Worker.w_pushed s = items /\ C03Worker.w_out s <> C03Worker.w_pushed s.
+Proof. exact C03WorkerProofs.worker_close_may_drop. Qed.
+Print Assumptions C03_worker_close_may_drop.
+
+(* (d) the code before the repair: a computed schedule (worker parked between its closed test and
+   Pop while Close runs) leaves the worker waiting for ever after Close has returned *)
+Theorem C03_worker_lost_wakeup_refuted :
+  exists items sched,
+    let s := C03Worker.wrun false sched (C03Worker.winit items) in
+    C03Worker.w_kpc s = C03Worker.WKDone /\ C03Worker.w_closed s = true /\ C03Worker.w_todo s = [] /\
+    C03Worker.w_out s = items /\ C03Worker.w_pc s = C03Worker.WWait /\
+    forall sched', C03Worker.w_pc (C03Worker.wrun false sched' s) = C03Worker.WWait /\
+                   C03Worker.worker_can_move (C03Worker.wrun false sched' s) = false.
+Proof. exact C03WorkerProofs.worker_lost_wakeup_refuted. Qed.
+Print Assumptions C03_worker_lost_wakeup_refuted.
+
+(* the replay harness runs the LTS (coarser steps: Close in one piece, a woken worker runs on) *)
+Theorem C03_worker_harness_runs_are_runs : forall push hs items,
+  exists sched, C03Worker.hrun push hs items = C03Worker.wrun push sched (C03Worker.winit items).
+Proof. exact C03WorkerProofs.hrun_is_wrun. Qed.
+Print Assumptions C03_worker_harness_runs_are_runs.
+
+(* the oracle applied to the implementation accepts the model, and what it accepts *)
+Theorem C03_worker_model_passes : forall items hs,
+  C03Worker.ok_worker items (C03Worker.wobserve (C03Worker.hrun true hs items)) = true.
+Proof. exact C03WorkerProofs.worker_model_passes. Qed.
+Print Assumptions C03_worker_model_passes.
+
+Theorem C03_worker_model_passes_on_the_wire : forall c,
+  Val.as_bool (Val.nthv 1 c) = true ->
+  RunC03Worker.x_C03_worker_ok (Val.VL [c; RunC03Worker.x_C03_worker_run c]) = Val.VI 1%Z.
+Proof. exact C03WorkerProofs.worker_model_passes_on_the_wire. Qed.
+Print Assumptions C03_worker_model_passes_on_the_wire.
+
+Theorem C03_worker_oracle_sound : forall items o,
+  C03Worker.ok_worker items o = true ->
+  (C03Worker.o_kpc o = 5%Z -> C03Worker.o_pc o <> 3%Z) /\
+  (C03Worker.o_kpc o = 5%Z -> C03Worker.o_pc o = 3%Z \/ C03Worker.o_pc o = 5%Z -> C03Worker.o_pc o = 5%Z) /\
+  (exists rest, firstn (length items - C03Worker.o_todo o) items = C03Worker.o_out o ++ rest) /\
+  (C03Worker.o_kpc o = 0%Z -> C03Worker.o_pc o = 3%Z ->
+     C03Worker.o_out o = firstn (length items - C03Worker.o_todo o) items).
+Proof. exact C03WorkerProofs.ok_worker_sound. Qed.
+Print Assumptions C03_worker_oracle_sound.
+
+(* (e) non-vacuity: item 1 processed; the worker parked before Pop with closed = false tested while
+   Close runs to completion; item 2 pushed behind the nil; the worker pops the nil and ends *)
+Example C03_worker_nonvacuous :
+  let s := C03Worker.wrun true C03WorkerProofs.wnonvac_sched (C03Worker.winit C03WorkerProofs.wnonvac_items) in
+  C03Worker.w_pc (C03Worker.wrun true
+      [C03Worker.TW; C03Worker.TP; C03Worker.TW; C03Worker.TW; C03Worker.TK; C03Worker.TK; C03Worker.TP; C03Worker.TW]
+      (C03Worker.winit C03WorkerProofs.wnonvac_items)) = C03Worker.WGot None /\
+  C03Worker.w_kpc s = C03Worker.WKDone /\ C03Worker.worker_can_move s = false /\
+  C03Worker.w_pc s = C03Worker.WDone /\
+  C03Worker.w_out s = [1]%Z /\ C03Worker.w_pushed s = [1; 2]%Z /\ C03Worker.w_todo s = [].
+Proof. exact C03WorkerProofs.worker_nonvacuous. Qed.
